@@ -1386,3 +1386,739 @@ Proof.
   unfold step_spur in H. destruct (nth_error (workers s) (t - S (nprods s + nq s))) as [[| | | | |[]| | |]|]; try discriminate.
   injection H as <- <-. cbn in Hin; intuition discriminate.
 Qed.
+
+(* ------------------------------------------------------------------------------------------ *)
+(* group 3: progress.  The converse of the ownership invariant (a recorded owner is at a       *)
+(* program point inside that critical section) and the spawn / stop-pass bookkeeping.          *)
+
+Definition holder (s : st) (t q : nat) : Prop :=
+  (t = 0 /\ holdsM (mainpc s) q = true) \/
+  (exists x n pc, t = S x /\ nth_error (prods s) x = Some (n, pc) /\ holdsP pc q = true) \/
+  (exists w pc, t = worker_tid s w /\ nth_error (workers s) w = Some pc /\ holdsW w pc q = true).
+
+Definition Rev (s : st) : Prop :=
+  forall q t, q < nq s -> qown (getq s q) = Some t -> holder s t q.
+
+(* how the holders of one state carry over to another *)
+Lemma holder_transfer s s' t q :
+  holder s t q -> nprods s' = nprods s ->
+  (holdsM (mainpc s) q = true -> holdsM (mainpc s') q = true) ->
+  (forall x n pc, nth_error (prods s) x = Some (n, pc) -> holdsP pc q = true ->
+                  exists n' pc', nth_error (prods s') x = Some (n', pc') /\ holdsP pc' q = true) ->
+  (forall w pc, nth_error (workers s) w = Some pc -> holdsW w pc q = true ->
+                exists pc', nth_error (workers s') w = Some pc' /\ holdsW w pc' q = true) ->
+  holder s' t q.
+Proof.
+  intros [[-> Hm]|[(x & n & pc & -> & Hn & Hh)|(w & pc & -> & Hn & Hh)]] Hp HM HP HW.
+  - left. auto.
+  - right; left. destruct (HP _ _ _ Hn Hh) as (n' & pc' & Hn' & Hh'). exists x, n', pc'. auto.
+  - right; right. destruct (HW _ _ Hn Hh) as (pc' & Hn' & Hh'). exists w, pc'.
+    unfold worker_tid. rewrite Hp. auto.
+Qed.
+
+Lemma rev_frame s s' :
+  Rev s -> nq s' = nq s -> (forall q, qown (getq s' q) = qown (getq s q)) ->
+  (forall t q, holder s t q -> holder s' t q) -> Rev s'.
+Proof. intros R Hk Ho Hh q t Hq Hown. rewrite Hk in Hq. rewrite Ho in Hown. auto. Qed.
+
+(* thread t0 acquires the free mutex q0 *)
+Lemma rev_acquire s s' q0 t0 :
+  Rev s -> nq s' = nq s -> qown (getq s' q0) = Some t0 ->
+  (forall q, q <> q0 -> qown (getq s' q) = qown (getq s q)) ->
+  holder s' t0 q0 ->
+  (forall t q, q <> q0 -> holder s t q -> holder s' t q) -> Rev s'.
+Proof.
+  intros R Hk Ho0 Ho Hh0 Hh q t Hq Hown. rewrite Hk in Hq. destruct (Nat.eq_dec q q0) as [->|Hne].
+  - rewrite Ho0 in Hown. injection Hown as <-. exact Hh0.
+  - rewrite (Ho _ Hne) in Hown. auto.
+Qed.
+
+(* the mutex q0 is released *)
+Lemma rev_release s s' q0 :
+  Rev s -> nq s' = nq s -> qown (getq s' q0) = None ->
+  (forall q, q <> q0 -> qown (getq s' q) = qown (getq s q)) ->
+  (forall t q, q <> q0 -> holder s t q -> holder s' t q) -> Rev s'.
+Proof.
+  intros R Hk Ho0 Ho Hh q t Hq Hown. rewrite Hk in Hq. destruct (Nat.eq_dec q q0) as [->|Hne].
+  - rewrite Ho0 in Hown. discriminate.
+  - rewrite (Ho _ Hne) in Hown. auto.
+Qed.
+
+Lemma rev_init rc k counts : Rev (init rc k counts).
+Proof.
+  intros q t Hq Ho. unfold nq in Hq; cbn in Hq. rewrite repeat_length in Hq.
+  rewrite getq_init in Ho by exact Hq. discriminate.
+Qed.
+
+(* qown after set_queue *)
+Lemma qown_set_eq s q x : q < nq s -> qown (getq (set_queue s q x) q) = qown x.
+Proof. intros H. now rewrite getq_set_eq. Qed.
+Lemma qown_set_neq s q q' x : q' <> q -> qown (getq (set_queue s q x) q') = qown (getq s q').
+Proof. intros H. rewrite getq_set_neq; auto. Qed.
+
+Lemma holder_same_pw s s' t q :
+  prods s' = prods s -> workers s' = workers s ->
+  (holdsM (mainpc s) q = true -> holdsM (mainpc s') q = true) ->
+  holder s t q -> holder s' t q.
+Proof.
+  intros Ep Ew HM H. eapply holder_transfer; eauto.
+  - unfold nprods. now rewrite Ep.
+  - rewrite Ep. eauto.
+  - rewrite Ew. eauto.
+Qed.
+
+Lemma holder_set_prod s s' x n pc pc' t q :
+  mainpc s' = mainpc s -> workers s' = workers s -> prods s' = set_nth x (n, pc') (prods s) ->
+  nth_error (prods s) x = Some (n, pc) -> (holdsP pc q = true -> holdsP pc' q = true) ->
+  holder s t q -> holder s' t q.
+Proof.
+  intros Em Ew Ep En Hh H. eapply holder_transfer; eauto.
+  - unfold nprods. rewrite Ep. apply set_nth_length.
+  - now rewrite Em.
+  - intros x0 n0 pc0 Hn0 Hh0. rewrite Ep. destruct (Nat.eq_dec x x0) as [<-|Hne].
+    + rewrite En in Hn0. injection Hn0 as <- <-. exists n, pc'.
+      rewrite nth_error_set_nth_eq by (eapply nth_error_lt; eauto). auto.
+    + exists n0, pc0. rewrite nth_error_set_nth_neq by exact Hne. auto.
+  - rewrite Ew. eauto.
+Qed.
+
+Lemma holder_set_worker s s' w pc pc' t q :
+  mainpc s' = mainpc s -> prods s' = prods s -> workers s' = set_nth w pc' (workers s) ->
+  nth_error (workers s) w = Some pc -> (holdsW w pc q = true -> holdsW w pc' q = true) ->
+  holder s t q -> holder s' t q.
+Proof.
+  intros Em Ep Ew En Hh H. eapply holder_transfer; eauto.
+  - unfold nprods. now rewrite Ep.
+  - now rewrite Em.
+  - rewrite Ep. eauto.
+  - intros w0 pc0 Hn0 Hh0. rewrite Ew. destruct (Nat.eq_dec w w0) as [<-|Hne].
+    + rewrite En in Hn0. injection Hn0 as <-. exists pc'.
+      rewrite nth_error_set_nth_eq by (eapply nth_error_lt; eauto). auto.
+    + exists pc0. rewrite nth_error_set_nth_neq by exact Hne. auto.
+Qed.
+
+Lemma notify_fwd s q w pc :
+  nth_error (workers s) w = Some pc ->
+  nth_error (workers (notify s q)) w = Some (if Nat.eqb w q then wake pc else pc).
+Proof.
+  intros Hn. rewrite notify_workers. destruct (Nat.eqb_spec w q) as [->|Hne].
+  - rewrite Hn. rewrite nth_error_set_nth_eq by (eapply nth_error_lt; eauto). reflexivity.
+  - destruct (nth_error (workers s) q); [|exact Hn]. rewrite nth_error_set_nth_neq; auto.
+Qed.
+
+Lemma notify_holds s q w pc q' :
+  nth_error (workers s) w = Some pc -> holdsW w pc q' = true ->
+  exists pc', nth_error (workers (notify s q)) w = Some pc' /\ holdsW w pc' q' = true.
+Proof.
+  intros Hn Hh. eexists. split; [apply notify_fwd; exact Hn|].
+  destruct (Nat.eqb w q); [now rewrite wake_holds|exact Hh].
+Qed.
+
+Lemma getq_notify s q q' : getq (notify s q) q' = getq s q'.
+Proof. unfold getq. destruct (notify_other s q) as (_ & _ & -> & _). reflexivity. Qed.
+
+Lemma nq_notify s q : nq (notify s q) = nq s.
+Proof. unfold nq. destruct (notify_other s q) as (_ & _ & -> & _). reflexivity. Qed.
+
+Lemma step_main_rev s s' evs : Own s -> Rev s -> step_main s = Some (s', evs) -> Rev s'.
+Proof.
+  intros O R H. unfold step_main in H.
+  destruct (mainpc s) as [i|d q|d q|d q|i|] eqn:Em.
+  - (* MSpawn *)
+    destruct (nth_error (workers s) i) as [[]|] eqn:Ew; try discriminate. injection H as <- <-.
+    eapply rev_frame; eauto.
+    intros t q Hh. eapply holder_transfer; [exact Hh|reflexivity| | | ].
+    + cbn. rewrite Em. discriminate.
+    + cbn. eauto.
+    + cbn. intros w pc Hn Hw. destruct (Nat.eq_dec i w) as [<-|Hne].
+      * rewrite Ew in Hn. injection Hn as <-. discriminate.
+      * exists pc. rewrite nth_error_set_nth_neq by exact Hne. auto.
+  - (* MStopLock *)
+    destruct (q_free s q && (negb d || all_prods_done s)) eqn:G; [|discriminate].
+    apply andb_true_iff in G as [G _]. apply q_free_spec in G as [Hq Hfree]. injection H as <- <-.
+    eapply (rev_acquire s _ q 0); eauto.
+    + unfold nq; cbn. apply set_nth_length.
+    + change (qown (getq (set_queue s q {| qown := Some 0; qitems := qitems (getq s q); qstop := true |}) q) = Some 0).
+      now rewrite qown_set_eq.
+    + intros q' Hne. change (getq (set_main ?a ?b) q') with (getq a q'). now rewrite qown_set_neq.
+    + left. split; [reflexivity|]. cbn. apply Nat.eqb_refl.
+    + intros t q' Hne Hh. eapply (holder_same_pw s); [reflexivity|reflexivity| |exact Hh]. cbn. rewrite Em. discriminate.
+  - (* MStopNotify *)
+    injection H as <- <-. eapply rev_frame; eauto.
+    + change (nq (notify s q) = nq s). apply nq_notify.
+    + intros q'. change (qown (getq (notify s q) q') = qown (getq s q')). now rewrite getq_notify.
+    + intros t q' Hh. destruct (notify_other s q) as (_ & _ & _ & _ & Ep & _).
+      eapply holder_transfer; [exact Hh| | | | ].
+      * unfold nprods; cbn. now rewrite Ep.
+      * cbn. rewrite Em. auto.
+      * cbn. rewrite Ep. eauto.
+      * cbn. intros w pc Hn Hw. eapply notify_holds; eauto.
+  - (* MStopUnlock *)
+    injection H as <- <-.
+    destruct (O_m s O q) as [Hq Hown]; [rewrite Em; cbn; apply Nat.eqb_refl|].
+    eapply (rev_release s _ q); eauto.
+    + unfold nq; cbn. apply set_nth_length.
+    + change (qown (getq (set_queue s q (unlockq (getq s q))) q) = None). now rewrite qown_set_eq.
+    + intros q' Hne. change (getq (set_main ?a ?b) q') with (getq a q'). now rewrite qown_set_neq.
+    + intros t q' Hne Hh. eapply (holder_same_pw s); [reflexivity|reflexivity| |exact Hh]. cbn. rewrite Em. cbn.
+      intros E. apply Nat.eqb_eq in E. congruence.
+  - (* MJoin *)
+    destruct (nth_error (workers s) i) as [[]|] eqn:Ew; try discriminate. injection H as <- <-.
+    eapply rev_frame; eauto. intros t q Hh. eapply (holder_same_pw s); [reflexivity|reflexivity| |exact Hh]. cbn. rewrite Em. discriminate.
+  - discriminate.
+Qed.
+
+Lemma step_spur_rev w s s' evs : Rev s -> step_spur w s = Some (s', evs) -> Rev s'.
+Proof.
+  intros R H. unfold step_spur in H.
+  destruct (nth_error (workers s) w) as [[| | | | |[]| | |]|] eqn:Ew; try discriminate. injection H as <- <-.
+  eapply rev_frame; eauto. intros t q Hh.
+  eapply (holder_set_worker s); [reflexivity|reflexivity|reflexivity|exact Ew| |exact Hh]. discriminate.
+Qed.
+
+(* a producer acquires q and pushes *)
+Lemma rev_push s x n pc q it b pc' :
+  Rev s -> nth_error (prods s) x = Some (n, pc) -> (forall q', holdsP pc q' = false) ->
+  q < nq s -> holdsP pc' q = true ->
+  Rev (set_prod (add_enq (set_queue s q {| qown := Some (S x); qitems := qitems (getq s q) ++ [it]; qstop := qstop (getq s q) |})
+                         it b) x (n, pc')).
+Proof.
+  intros R En Hh Hq Hh'.
+  assert (Hx : x < length (prods s)) by (eapply nth_error_lt; eauto).
+  eapply (rev_acquire s _ q (S x)); eauto.
+  - unfold nq; cbn. apply set_nth_length.
+  - match goal with |- qown (getq ?s0 q) = _ =>
+      change (qown (getq (set_queue s q {| qown := Some (S x); qitems := qitems (getq s q) ++ [it]; qstop := qstop (getq s q) |}) q) = Some (S x)) end.
+    now rewrite qown_set_eq.
+  - intros q' Hne.
+    match goal with |- qown (getq ?s0 q') = _ =>
+      change (qown (getq (set_queue s q {| qown := Some (S x); qitems := qitems (getq s q) ++ [it]; qstop := qstop (getq s q) |}) q') = qown (getq s q')) end.
+    now rewrite qown_set_neq.
+  - right; left. exists x, n, pc'. split; [reflexivity|]. split; [|exact Hh'].
+    cbn. now apply nth_error_set_nth_eq.
+  - intros t q' Hne Hho.
+    eapply (holder_set_prod s); [reflexivity|reflexivity|reflexivity|exact En| |exact Hho].
+    rewrite Hh. discriminate.
+Qed.
+
+Lemma step_prod_rev x s s' evs : Own s -> Rev s -> step_prod x s = Some (s', evs) -> Rev s'.
+Proof.
+  intros O R H. unfold step_prod in H.
+  destruct (nth_error (prods s) x) as [[n pc]|] eqn:En; [|discriminate].
+  destruct pc as [j|j start i|j start|j q|j q].
+  - (* PFetch *)
+    destruct (Nat.ltb j n && Nat.ltb 0 (nq s) && negb match mainpc s with MSpawn _ => true | _ => false end); [|discriminate].
+    injection H as <- <-. eapply rev_frame; eauto. intros t q Hh.
+    eapply (holder_set_prod s); [reflexivity|reflexivity|reflexivity|exact En| |exact Hh]. discriminate.
+  - (* PTry *)
+    destruct (q_free s ((start + i) mod nq s)) eqn:G.
+    + apply q_free_spec in G as [Hq Hfree]. unfold do_push in H. injection H as <- <-.
+      eapply rev_push; eauto.
+      destruct (match qitems (getq s ((start + i) mod nq s)) with [] => true | _ :: _ => false end); cbn; apply Nat.eqb_refl.
+    + injection H as <- <-. eapply rev_frame; eauto. intros t q Hh.
+      eapply (holder_set_prod s); [reflexivity|reflexivity|reflexivity|exact En| |exact Hh]. discriminate.
+  - (* PPushLock *)
+    destruct (q_free s start) eqn:G; [|discriminate].
+    apply q_free_spec in G as [Hq Hfree]. unfold do_push in H. injection H as <- <-.
+    eapply rev_push; eauto.
+    destruct (match qitems (getq s start) with [] => true | _ :: _ => false end); cbn; apply Nat.eqb_refl.
+  - (* PNotify *)
+    injection H as <- <-. destruct (notify_other s q) as (_ & _ & _ & Em & Ep & _).
+    eapply rev_frame; eauto.
+    + change (nq (notify s q) = nq s). apply nq_notify.
+    + intros q'. change (qown (getq (notify s q) q') = qown (getq s q')). now rewrite getq_notify.
+    + intros t q' Hh. eapply holder_transfer; [exact Hh| | | | ].
+      * unfold nprods; cbn. rewrite Ep. apply set_nth_length.
+      * cbn. now rewrite Em.
+      * cbn. rewrite Ep. intros x0 n0 pc0 Hn0 Hh0. destruct (Nat.eq_dec x x0) as [<-|Hne].
+        -- rewrite En in Hn0. injection Hn0 as <- <-. exists n, (PUnlock j q).
+           rewrite nth_error_set_nth_eq by (eapply nth_error_lt; eauto). auto.
+        -- exists n0, pc0. rewrite nth_error_set_nth_neq by exact Hne. auto.
+      * cbn. intros w pc Hn Hw. eapply notify_holds; eauto.
+  - (* PUnlock *)
+    injection H as <- <-.
+    destruct (O_p s O x n (PUnlock j q) q En) as [Hq Hown]; [cbn; apply Nat.eqb_refl|].
+    eapply (rev_release s _ q); eauto.
+    + unfold nq; cbn. apply set_nth_length.
+    + change (qown (getq (set_queue s q (unlockq (getq s q))) q) = None). now rewrite qown_set_eq.
+    + intros q' Hne. change (qown (getq (set_queue s q (unlockq (getq s q))) q') = qown (getq s q')). now rewrite qown_set_neq.
+    + intros t q' Hne Hh.
+      eapply (holder_set_prod s); [reflexivity|reflexivity|reflexivity|exact En| |exact Hh].
+      cbn. intros E. apply Nat.eqb_eq in E. congruence.
+Qed.
+
+(* a worker acquires q (its pc changes to one that holds q) *)
+Lemma rev_worker_acquire s w pc0 pc' q x :
+  Rev s -> nth_error (workers s) w = Some pc0 -> (forall q', holdsW w pc0 q' = false) ->
+  q < nq s -> qown x = Some (worker_tid s w) -> holdsW w pc' q = true ->
+  Rev (set_worker (set_queue s q x) w pc').
+Proof.
+  intros R Ew Hh Hq Hox Hh'.
+  eapply (rev_acquire s _ q (worker_tid s w)); eauto.
+  - unfold nq; cbn. apply set_nth_length.
+  - change (qown (getq (set_queue s q x) q) = Some (worker_tid s w)). now rewrite qown_set_eq.
+  - intros q' Hne. change (qown (getq (set_queue s q x) q') = qown (getq s q')). now rewrite qown_set_neq.
+  - right; right. exists w, pc'. split; [reflexivity|]. split; [|exact Hh'].
+    cbn. apply nth_error_set_nth_eq. eapply nth_error_lt; eauto.
+  - intros t q' Hne Hho.
+    eapply (holder_set_worker s); [reflexivity|reflexivity|reflexivity|exact Ew| |exact Hho].
+    rewrite Hh. discriminate.
+Qed.
+
+(* a worker releases the mutex q its pc says it holds *)
+Lemma rev_worker_release s w pc0 pc' q :
+  Own s -> Rev s -> nth_error (workers s) w = Some pc0 ->
+  (forall q', holdsW w pc0 q' = Nat.eqb q' q) ->
+  Rev (set_worker (set_queue s q (unlockq (getq s q))) w pc').
+Proof.
+  intros O R Ew Hh.
+  destruct (O_w s O w pc0 q Ew) as [Hq Hown]; [rewrite Hh; apply Nat.eqb_refl|].
+  eapply (rev_release s _ q); eauto.
+  - unfold nq; cbn. apply set_nth_length.
+  - change (qown (getq (set_queue s q (unlockq (getq s q))) q) = None). now rewrite qown_set_eq.
+  - intros q' Hne. change (qown (getq (set_queue s q (unlockq (getq s q))) q') = qown (getq s q')). now rewrite qown_set_neq.
+  - intros t q' Hne Hho.
+    eapply (holder_set_worker s); [reflexivity|reflexivity|reflexivity|exact Ew| |exact Hho].
+    rewrite Hh. intros E. apply Nat.eqb_eq in E. congruence.
+Qed.
+
+Lemma rev_worker_pc s s' w pc0 pc' :
+  Rev s -> nth_error (workers s) w = Some pc0 -> (forall q', holdsW w pc0 q' = false) ->
+  mainpc s' = mainpc s -> prods s' = prods s -> queues s' = queues s ->
+  workers s' = set_nth w pc' (workers s) -> Rev s'.
+Proof.
+  intros R Ew Hh Em Ep Eq Ewk. eapply rev_frame; eauto.
+  - unfold nq. now rewrite Eq.
+  - intros q. unfold getq. now rewrite Eq.
+  - intros t q Hho. eapply (holder_set_worker s); eauto. rewrite Hh. discriminate.
+Qed.
+
+Lemma pop_acquired_rev s w pc0 :
+  Rev s -> nth_error (workers s) w = Some pc0 -> (forall q', holdsW w pc0 q' = false) -> w < nq s ->
+  Rev (pop_acquired s w).
+Proof.
+  intros R Ew Hh Hw. unfold pop_acquired. destruct (qitems (getq s w)) as [|it r].
+  - eapply rev_worker_acquire; eauto. destruct (qstop (getq s w)); cbn; apply Nat.eqb_refl.
+  - eapply rev_worker_acquire; eauto. cbn. apply Nat.eqb_refl.
+Qed.
+
+Lemma step_worker_rev w s s' evs : Own s -> Rev s -> step_worker w s = Some (s', evs) -> Rev s'.
+Proof.
+  intros O R H. unfold step_worker in H.
+  destruct (nth_error (workers s) w) as [pc|] eqn:Ew; [|discriminate].
+  destruct pc as [|i|i q t| | |[]|t|t|]; try discriminate.
+  - (* WScan *)
+    destruct (q_free s ((w + i) mod nq s)) eqn:G.
+    + apply q_free_spec in G as [Hq Hfree].
+      destruct (qitems (getq s ((w + i) mod nq s))) as [|it r]; injection H as <- <-;
+        (eapply rev_worker_acquire; eauto; cbn; apply Nat.eqb_refl).
+    + injection H as <- <-. eapply (rev_worker_pc s); eauto; reflexivity.
+  - (* WScanUnlock *)
+    injection H as <- <-. eapply rev_worker_release; eauto.
+  - (* WPopLock *)
+    destruct (q_free s w) eqn:G; [|discriminate]. apply q_free_spec in G as [Hq _].
+    injection H as <- <-. eapply pop_acquired_rev; eauto.
+  - (* WPopWait *)
+    injection H as <- <-. eapply rev_worker_release; eauto.
+  - (* WPopBlocked true *)
+    destruct (q_free s w) eqn:G; [|discriminate]. apply q_free_spec in G as [Hq _].
+    injection H as <- <-. eapply pop_acquired_rev; eauto.
+  - (* WPopUnlock *)
+    injection H as <- <-. eapply rev_worker_release; eauto.
+  - (* WExec *)
+    injection H as <- <-. eapply (rev_worker_pc s); eauto; reflexivity.
+Qed.
+
+(* ------------------------------------------------------------------------------------------ *)
+(* bookkeeping                                                                                *)
+
+Definition range_ok (k : nat) (pc : ppc) : Prop :=
+  match pc with PTry _ st _ | PPushLock _ st => st < k | _ => True end.
+
+(* queues 0 .. stopped_upto-1 have been stopped by the destructor's request_stop *)
+Definition stopped_upto (s : st) : nat :=
+  match mainpc s with
+  | MStopLock true q => q
+  | MStopNotify true q | MStopUnlock true q => S q
+  | MJoin _ | MDone => nq s
+  | _ => 0
+  end.
+
+(* the destructor's request_stop has passed its guard (every producer is done) *)
+Definition dtor_started (p : mpc) : bool :=
+  match p with
+  | MStopLock true q => negb (Nat.eqb q 0)
+  | MStopNotify true _ | MStopUnlock true _ | MJoin _ | MDone => true
+  | _ => false
+  end.
+
+Record Bk (s : st) : Prop := {
+  B_k : 0 < nq s;
+  B_spawn : forall i, mainpc s = MSpawn i ->
+            i < nq s /\ forall w, i <= w -> w < nq s -> nth_error (workers s) w = Some WNotStarted;
+  B_started : forall w, nth_error (workers s) w = Some WNotStarted -> exists i, mainpc s = MSpawn i /\ i <= w;
+  B_range : match mainpc s with
+            | MStopLock _ q | MStopNotify _ q | MStopUnlock _ q => q < nq s
+            | MJoin i => i < nq s
+            | _ => True
+            end;
+  B_prange : forall x n pc, nth_error (prods s) x = Some (n, pc) -> range_ok (nq s) pc;
+  B_stop : forall q, q < stopped_upto s -> qstop (getq s q) = true;
+  B_dtor : dtor_started (mainpc s) = true -> all_prods_done s = true
+}.
+
+Lemma bk_init rc k counts : 0 < k -> Bk (init rc k counts).
+Proof.
+  intros Hk. constructor; unfold stopped_upto, nq; cbn; rewrite ?repeat_length; auto; try discriminate.
+  - intros i E. injection E as <-. split; [exact Hk|]. intros w _ Hw.
+    rewrite (nth_nth_error _ _ WNotStarted) by (now rewrite repeat_length). f_equal. now apply nth_repeat.
+  - intros w _. exists 0. split; [reflexivity|lia].
+  - intros x n pc H. apply nth_error_map_some in H as (y & _ & E). injection E as -> ->. exact I.
+  - intros q Hq. lia.
+Qed.
+
+Definition wk_rel (l l' : list wpc) : Prop :=
+  forall w, nth_error l' w = Some WNotStarted <-> nth_error l w = Some WNotStarted.
+
+Lemma wk_rel_refl l : wk_rel l l.
+Proof. intros w. reflexivity. Qed.
+
+Lemma wk_rel_set l w p0 p :
+  nth_error l w = Some p0 -> p0 <> WNotStarted -> p <> WNotStarted -> wk_rel l (set_nth w p l).
+Proof.
+  intros Hn H0 H1 w0. destruct (Nat.eq_dec w w0) as [<-|Hne].
+  - rewrite nth_error_set_nth_eq by (eapply nth_error_lt; eauto). rewrite Hn. split; congruence.
+  - now rewrite nth_error_set_nth_neq.
+Qed.
+
+Lemma wk_rel_notify s q : wk_rel (workers s) (workers (notify s q)).
+Proof.
+  intros w. split.
+  - intros H. apply notify_nth in H as (pc0 & Hn & E). rewrite Hn. f_equal.
+    destruct (Nat.eqb w q); [|congruence]. destruct pc0 as [| | | | |[]| | |]; cbn in E; congruence.
+  - intros H. rewrite (notify_fwd s q w _ H). destruct (Nat.eqb w q); reflexivity.
+Qed.
+
+(* a step of a thread other than the owner *)
+Lemma bk_frame s s' :
+  Bk s -> mainpc s' = mainpc s -> nq s' = nq s -> wk_rel (workers s) (workers s') ->
+  (forall q, qstop (getq s q) = true -> qstop (getq s' q) = true) ->
+  (all_prods_done s = true -> all_prods_done s' = true) ->
+  (forall x n pc, nth_error (prods s') x = Some (n, pc) -> range_ok (nq s) pc) ->
+  Bk s'.
+Proof.
+  intros [B1 B2 B3 B4 B5 B6 B7] Em Ek Hw Hs Hd Hr.
+  constructor; unfold stopped_upto in *; rewrite ?Em, ?Ek; auto.
+  - intros i E. destruct (B2 i E) as [Hi Hall]. split; [exact Hi|]. intros w H1 H2. apply Hw. auto.
+  - intros w H. apply Hw in H. auto.
+Qed.
+
+Lemma step_main_bk s s' evs : Own s -> Bk s -> step_main s = Some (s', evs) -> Bk s'.
+Proof.
+  intros O B H. unfold step_main in H. cbv zeta in H. destruct B as [B1 B2 B3 B4 B5 B6 B7].
+  pose proof (O_len s O) as Hlen.
+  destruct (mainpc s) as [i|d q|d q|d q|i|] eqn:Em.
+  - (* MSpawn *)
+    destruct (nth_error (workers s) i) as [[]|] eqn:Ew; try discriminate.
+    destruct (B2 i eq_refl) as [Hi Hall].
+    destruct (Nat.eqb_spec (S i) (nq s)) as [Ek|Ek]; injection H as <- <-.
+    + constructor; unfold stopped_upto, nq in *; rewrite ?Em in *; cbn [mainpc queues workers prods set_worker set_main] in *; auto; try discriminate.
+      * intros w Hn. exfalso. destruct (Nat.eq_dec i w) as [<-|Hne].
+        -- rewrite nth_error_set_nth_eq in Hn by lia. discriminate.
+        -- rewrite nth_error_set_nth_neq in Hn by exact Hne.
+           destruct (B3 w Hn) as (i0 & E & Hle). injection E as <-. apply nth_error_lt in Hn. lia.
+      * intros q Hq. destruct (negb (race s)); cbn in Hq; lia.
+      * destruct (negb (race s)); discriminate.
+    + constructor; unfold stopped_upto, nq in *; rewrite ?Em in *; cbn [mainpc queues workers prods set_worker set_main] in *; auto; try discriminate.
+      * intros i0 E. injection E as <-. split; [lia|]. intros w H1 H2. rewrite nth_error_set_nth_neq by lia. apply Hall; lia.
+      * intros w Hn. destruct (Nat.eq_dec i w) as [<-|Hne].
+        -- rewrite nth_error_set_nth_eq in Hn by lia. discriminate.
+        -- rewrite nth_error_set_nth_neq in Hn by exact Hne.
+           destruct (B3 w Hn) as (i0 & E & Hle). injection E as <-. exists (S i). split; [reflexivity|lia].
+  - (* MStopLock *)
+    destruct (q_free s q && (negb d || all_prods_done s)) eqn:G; [|discriminate].
+    apply andb_true_iff in G as [G Gd]. apply q_free_spec in G as [Hq Hfree]. injection H as <- <-.
+    constructor; unfold stopped_upto, nq, getq in *; rewrite ?Em in *; cbn [mainpc queues workers prods set_queue set_main] in *;
+      rewrite ?set_nth_length; auto; try discriminate.
+    + intros w Hn. destruct (B3 w Hn) as (i0 & E & _). discriminate.
+    + intros q' Hq'. destruct d; [|lia]. destruct (Nat.eq_dec q q') as [<-|Hne].
+      * rewrite nth_set_nth_eq by exact Hq. reflexivity.
+      * rewrite nth_set_nth_neq by exact Hne. apply B6. lia.
+    + intros Hd. destruct d; [|discriminate]. exact Gd.
+  - (* MStopNotify *)
+    injection H as <- <-. destruct (notify_other s q) as (_ & _ & Eq & _ & Ep & _).
+    constructor; unfold stopped_upto, nq, getq, all_prods_done in *; rewrite ?Em in *; cbn [mainpc queues workers prods set_main] in *;
+      rewrite ?Eq, ?Ep; auto; try discriminate.
+    intros w Hn. apply wk_rel_notify in Hn. destruct (B3 w Hn) as (i0 & E & _). discriminate.
+  - (* MStopUnlock *)
+    assert (Hstop : forall q', qstop (nth q' (set_nth q (unlockq (nth q (queues s) dq)) (queues s)) dq) = qstop (nth q' (queues s) dq)).
+    { intros q'. apply unlock_fields. }
+    unfold dq in Hstop.
+    destruct (Nat.eqb_spec (S q) (nq s)) as [Ek|Ek]; [destruct d|]; injection H as <- <-;
+      constructor; unfold stopped_upto, nq, getq in *; rewrite ?Em in *; cbn [mainpc queues workers prods set_queue set_main] in *;
+      rewrite ?set_nth_length; auto; try discriminate;
+      try (intros w Hn; destruct (B3 w Hn) as (i0 & E & _); discriminate);
+      try (intros q' Hq'; rewrite Hstop; apply B6; cbn in *; lia);
+      try lia; try (intros _; apply B7; reflexivity); try (intros Hd; apply B7; destruct d; [reflexivity|discriminate]).
+  - (* MJoin *)
+    destruct (nth_error (workers s) i) as [[]|] eqn:Ew; try discriminate.
+    destruct (Nat.eqb_spec (S i) (nq s)) as [Ek|Ek]; injection H as <- <-;
+      constructor; unfold stopped_upto, nq in *; rewrite ?Em in *; cbn [mainpc queues workers prods set_main] in *; auto; try discriminate;
+      try (intros w Hn; destruct (B3 w Hn) as (i0 & E & _); discriminate);
+      try (intros _; apply B7; reflexivity); try lia.
+  - discriminate.
+Qed.
+
+Lemma qstop_set s q X q' :
+  qstop X = qstop (getq s q) -> qstop (getq (set_queue s q X) q') = qstop (getq s q').
+Proof. intros E. unfold getq; cbn. now apply nth_set_nth_stop. Qed.
+
+Lemma nq_set_queue s q X : nq (set_queue s q X) = nq s.
+Proof. unfold nq; cbn. apply set_nth_length. Qed.
+
+Lemma bk_worker s s' w pc0 pc' :
+  Bk s -> nth_error (workers s) w = Some pc0 -> pc0 <> WNotStarted -> pc' <> WNotStarted ->
+  mainpc s' = mainpc s -> prods s' = prods s -> workers s' = set_nth w pc' (workers s) ->
+  nq s' = nq s -> (forall q, qstop (getq s' q) = qstop (getq s q)) -> Bk s'.
+Proof.
+  intros B Ew H0 H1 Em Ep Ewk Ek Hs. eapply bk_frame; eauto.
+  - rewrite Ewk. eapply wk_rel_set; eauto.
+  - unfold all_prods_done. now rewrite Ep.
+  - rewrite Ep. apply (B_prange s B).
+Qed.
+
+Ltac bkw :=
+  eapply bk_worker; [eassumption|eassumption|discriminate| |reflexivity|reflexivity|reflexivity| | ];
+  [ try discriminate
+  | first [reflexivity | apply nq_set_queue]
+  | first [reflexivity | intros ?q0; apply qstop_set; reflexivity] ].
+
+Lemma step_spur_bk w s s' evs : Bk s -> step_spur w s = Some (s', evs) -> Bk s'.
+Proof.
+  intros B H. unfold step_spur in H.
+  destruct (nth_error (workers s) w) as [[| | | | |[]| | |]|] eqn:Ew; try discriminate. injection H as <- <-.
+  bkw.
+Qed.
+
+Lemma step_worker_bk w s s' evs : Bk s -> step_worker w s = Some (s', evs) -> Bk s'.
+Proof.
+  intros B H. unfold step_worker in H. cbv zeta in H.
+  destruct (nth_error (workers s) w) as [pc|] eqn:Ew; [|discriminate].
+  destruct pc as [|i|i q t| | |[]|t|t|]; try discriminate.
+  - (* WScan *)
+    destruct (q_free s ((w + i) mod nq s)) eqn:G.
+    + destruct (qitems (getq s ((w + i) mod nq s))) as [|it r]; injection H as <- <-; bkw.
+    + injection H as <- <-. bkw. match goal with |- context [if ?b then _ else _] => destruct b end; discriminate.
+  - (* WScanUnlock *)
+    injection H as <- <-. bkw. destruct t; [discriminate|]. match goal with |- context [if ?b then _ else _] => destruct b end; discriminate.
+  - (* WPopLock *)
+    destruct (q_free s w) eqn:G; [|discriminate]. injection H as <- <-. unfold pop_acquired.
+    destruct (qitems (getq s w)) as [|it r]; bkw. destruct (qstop (getq s w)); discriminate.
+  - (* WPopWait *)
+    injection H as <- <-. bkw.
+  - (* WPopBlocked true *)
+    destruct (q_free s w) eqn:G; [|discriminate]. injection H as <- <-. unfold pop_acquired.
+    destruct (qitems (getq s w)) as [|it r]; bkw. destruct (qstop (getq s w)); discriminate.
+  - (* WPopUnlock *)
+    injection H as <- <-. bkw. destruct t; discriminate.
+  - (* WExec *)
+    injection H as <- <-. bkw.
+Qed.
+
+Lemma bk_prod s s' x n pc pc' :
+  Bk s -> nth_error (prods s) x = Some (n, pc) -> (match pc with PFetch j => j < n | _ => True end) ->
+  mainpc s' = mainpc s -> nq s' = nq s -> wk_rel (workers s) (workers s') ->
+  (forall q, qstop (getq s' q) = qstop (getq s q)) ->
+  prods s' = set_nth x (n, pc') (prods s) -> range_ok (nq s) pc' -> Bk s'.
+Proof.
+  intros B En Hnd Em Ek Hw Hs Ep Hr. eapply bk_frame; [exact B|exact Em|exact Ek|exact Hw| | | ].
+  - intros q. now rewrite Hs.
+  - intros Hd. exfalso. eapply (all_done_contra (prods s)); eauto.
+  - rewrite Ep. intros x0 n0 pc0 Hn0. apply nth_error_set_nth in Hn0 as [(<- & E & _)|(Hne & Hn0)].
+    + injection E as -> ->. exact Hr.
+    + apply (B_prange s B _ _ _ Hn0).
+Qed.
+
+Lemma step_prod_bk x s s' evs : Bk s -> step_prod x s = Some (s', evs) -> Bk s'.
+Proof.
+  intros B H. unfold step_prod in H. cbv zeta in H.
+  destruct (nth_error (prods s) x) as [[n pc]|] eqn:En; [|discriminate].
+  pose proof (B_prange s B _ _ _ En) as Hr0. pose proof (B_k s B) as Hk.
+  destruct pc as [j|j start i|j start|j q|j q]; cbn in Hr0.
+  - (* PFetch *)
+    destruct (Nat.ltb_spec j n) as [Hj|]; [|discriminate]. cbn [andb] in H.
+    destruct (Nat.ltb 0 (nq s) && negb match mainpc s with MSpawn _ => true | _ => false end); [|discriminate].
+    injection H as <- <-.
+    eapply (bk_prod s _ x n (PFetch j)); [exact B|exact En|exact Hj|reflexivity|reflexivity|apply wk_rel_refl| |reflexivity| ].
+    + intros q. reflexivity.
+    + cbn. apply Nat.mod_upper_bound. lia.
+  - (* PTry *)
+    destruct (q_free s ((start + i) mod nq s)) eqn:G.
+    + unfold do_push in H. injection H as <- <-.
+      eapply (bk_prod s _ x n (PTry j start i)); [exact B|exact En|exact I|reflexivity| |apply wk_rel_refl| |reflexivity| ].
+      * unfold nq; cbn. apply set_nth_length.
+      * intros q0. match goal with |- qstop (getq ?a q0) = _ =>
+          change (qstop (getq (set_queue s ((start + i) mod nq s)
+                   {| qown := Some (S x); qitems := qitems (getq s ((start + i) mod nq s)) ++ [(S x, j)];
+                      qstop := qstop (getq s ((start + i) mod nq s)) |}) q0) = qstop (getq s q0)) end.
+        apply qstop_set. reflexivity.
+      * destruct (match qitems (getq s ((start + i) mod nq s)) with [] => true | _ :: _ => false end); exact I.
+    + injection H as <- <-.
+      eapply (bk_prod s _ x n (PTry j start i)); [exact B|exact En|exact I|reflexivity|reflexivity|apply wk_rel_refl| |reflexivity| ].
+      * intros q. reflexivity.
+      * match goal with |- context [if ?b then _ else _] => destruct b end; exact Hr0.
+  - (* PPushLock *)
+    destruct (q_free s start) eqn:G; [|discriminate]. unfold do_push in H. injection H as <- <-.
+    eapply (bk_prod s _ x n (PPushLock j start)); [exact B|exact En|exact I|reflexivity| |apply wk_rel_refl| |reflexivity| ].
+    + unfold nq; cbn. apply set_nth_length.
+    + intros q0. match goal with |- qstop (getq ?a q0) = _ =>
+        change (qstop (getq (set_queue s start
+                 {| qown := Some (S x); qitems := qitems (getq s start) ++ [(S x, j)];
+                    qstop := qstop (getq s start) |}) q0) = qstop (getq s q0)) end.
+      apply qstop_set. reflexivity.
+    + destruct (match qitems (getq s start) with [] => true | _ :: _ => false end); exact I.
+  - (* PNotify *)
+    injection H as <- <-. destruct (notify_other s q) as (_ & _ & Eq & Em & Ep & _).
+    eapply (bk_prod s _ x n (PNotify j q) (PUnlock j q)); [exact B|exact En|exact I| | | | | |exact I].
+    + exact Em.
+    + change (nq (notify s q) = nq s). apply nq_notify.
+    + apply wk_rel_notify.
+    + intros q0. change (qstop (getq (notify s q) q0) = qstop (getq s q0)). now rewrite getq_notify.
+    + cbn. now rewrite Ep.
+  - (* PUnlock *)
+    injection H as <- <-.
+    eapply (bk_prod s _ x n (PUnlock j q) (PFetch (S j))); [exact B|exact En|exact I|reflexivity| |apply wk_rel_refl| |reflexivity|exact I].
+    + unfold nq; cbn. apply set_nth_length.
+    + intros q0. change (qstop (getq (set_queue s q (unlockq (getq s q))) q0) = qstop (getq s q0)).
+      apply qstop_set. reflexivity.
+Qed.
+
+Lemma step_rev_bk t s s' evs :
+  Own s -> Rev s /\ Bk s -> step t s = Some (s', evs) -> Rev s' /\ Bk s'.
+Proof.
+  intros O [R B] H. unfold step in H. cbv zeta in H.
+  destruct (Nat.eqb t 0); [split; [eapply step_main_rev|eapply step_main_bk]; eauto|].
+  destruct (Nat.leb t (nprods s)); [split; [eapply step_prod_rev|eapply step_prod_bk]; eauto|].
+  destruct (Nat.leb t (nprods s + nq s)); [split; [eapply step_worker_rev|eapply step_worker_bk]; eauto|].
+  destruct (Nat.leb t (nprods s + nq s + nq s)); [|discriminate].
+  split; [eapply step_spur_rev|eapply step_spur_bk]; eauto.
+Qed.
+
+Theorem prog_reachable rc k counts (sched : list nat) :
+  0 < k ->
+  let s := fst (run step sched (init rc k counts, [])) in Own s /\ Rev s /\ Bk s.
+Proof.
+  intros Hk.
+  apply (run_invariant_state _ _ _ step (fun s => Own s /\ Rev s /\ Bk s)).
+  - intros s t s' ev (O & RB) H. split; [eapply step_own; eauto|eapply step_rev_bk; eauto].
+  - split; [apply own_init|]. split; [apply rev_init|now apply bk_init].
+Qed.
+
+(* either every mutex is free or some mutex has an owner *)
+Lemma owned_or_free s :
+  (forall q, q < nq s -> qown (getq s q) = None) \/ (exists q t, q < nq s /\ qown (getq s q) = Some t).
+Proof.
+  unfold nq. generalize (length (queues s)) as m. induction m as [|m IH].
+  - left. intros q Hq. lia.
+  - destruct IH as [IH|(q & t & Hq & Ho)]; [|right; exists q, t; split; [lia|exact Ho]].
+    destruct (qown (getq s m)) as [t|] eqn:E.
+    + right. exists m, t. split; [lia|exact E].
+    + left. intros q Hq. destruct (Nat.eq_dec q m) as [->|]; [exact E|apply IH; lia].
+Qed.
+
+Lemma not_all_done (l : list (nat * ppc)) :
+  forallb prod_done l = false -> exists x n pc, nth_error l x = Some (n, pc) /\ prod_done (n, pc) = false.
+Proof.
+  induction l as [|[n pc] r IH]; cbn; [discriminate|].
+  destruct (prod_done (n, pc)) eqn:E; cbn.
+  - intros H. destruct (IH H) as (x & n' & pc' & Hn & Hp). exists (S x), n', pc'. auto.
+  - intros _. exists 0, n, pc. auto.
+Qed.
+
+Lemma step_prod_tid x s : x < nprods s -> step (S x) s = step_prod x s.
+Proof.
+  intros Hx. unfold step. cbv zeta. cbn [Nat.eqb]. destruct (Nat.leb_spec (S x) (nprods s)); [reflexivity|lia].
+Qed.
+
+Lemma step_worker_tid w s : w < nq s -> step (worker_tid s w) s = step_worker w s.
+Proof.
+  intros Hw. unfold step, worker_tid. cbv zeta. cbn [Nat.eqb].
+  destruct (Nat.leb_spec (S (nprods s + w)) (nprods s)); [lia|].
+  destruct (Nat.leb_spec (S (nprods s + w)) (nprods s + nq s)); [|lia].
+  f_equal. lia.
+Qed.
+
+(* No reachable state is stuck: unless everything has finished, some thread other than the
+   spurious-wake-up environment (thread ids <= p + k) can take a step. *)
+Theorem progress rc k counts (sched : list nat) :
+  0 < k ->
+  let s := fst (run step sched (init rc k counts, [])) in
+  final s = false -> exists t, t <= nprods s + nq s /\ step t s <> None.
+Proof.
+  intros Hk s Hf. destruct (prog_reachable rc k counts sched Hk) as (O & R & B). fold s in O, R, B.
+  pose proof (O_len s O) as Hlen.
+  destruct (owned_or_free s) as [Hfree|(q & t & Hq & Ho)].
+  2:{ (* some mutex is held: its holder can move *)
+      destruct (R q t Hq Ho) as [[-> Hm]|[(x & n & pc & -> & Hn & Hh)|(w & pc & -> & Hn & Hh)]].
+      - exists 0. split; [lia|]. unfold step; cbn. unfold step_main.
+        destruct (mainpc s); try discriminate.
+      - pose proof (nth_error_lt _ _ _ Hn) as Hx. exists (S x). split; [unfold nprods; lia|].
+        rewrite step_prod_tid by exact Hx. unfold step_prod. rewrite Hn. destruct pc; try discriminate.
+      - pose proof (nth_error_lt _ _ _ Hn) as Hw. rewrite Hlen in Hw. exists (worker_tid s w).
+        split; [unfold worker_tid; lia|]. rewrite step_worker_tid by exact Hw. unfold step_worker. rewrite Hn.
+        destruct pc; try discriminate. }
+  (* every mutex is free *)
+  assert (Hqf : forall q, q < nq s -> q_free s q = true) by (intros q Hq; apply q_free_spec; auto).
+  destruct (mainpc s) as [i|d q|d q|d q|i|] eqn:Em.
+  - (* MSpawn *)
+    destruct (B_spawn s B i Em) as [Hi Hall]. exists 0. split; [lia|]. unfold step; cbn. unfold step_main.
+    rewrite Em, (Hall i (le_n i) Hi). discriminate.
+  - (* MStopLock *)
+    pose proof (B_range s B) as Hr. rewrite Em in Hr.
+    destruct (negb d || all_prods_done s) eqn:G.
+    + exists 0. split; [lia|]. unfold step; cbn. unfold step_main. rewrite Em, (Hqf q Hr), G. discriminate.
+    + apply orb_false_iff in G as [_ Gd]. apply not_all_done in Gd as (x & n & pc & Hn & Hp).
+      pose proof (nth_error_lt _ _ _ Hn) as Hx. exists (S x). split; [unfold nprods; lia|].
+      rewrite step_prod_tid by exact Hx. unfold step_prod. cbv zeta. rewrite Hn.
+      pose proof (B_prange s B _ _ _ Hn) as Hpr. pose proof (B_k s B) as Hk0.
+      destruct pc as [j|j st0 i0|j st0|j q0|j q0]; cbn in Hpr.
+      * unfold prod_done in Hp; cbn in Hp. apply Nat.leb_gt in Hp.
+        destruct (Nat.ltb_spec j n); [|lia]. destruct (Nat.ltb_spec 0 (nq s)); [|lia]. rewrite Em. discriminate.
+      * destruct (q_free s ((st0 + i0) mod nq s)); discriminate.
+      * rewrite (Hqf st0 Hpr). discriminate.
+      * discriminate.
+      * discriminate.
+  - exists 0. split; [lia|]. unfold step; cbn. unfold step_main. rewrite Em. discriminate.
+  - exists 0. split; [lia|]. unfold step; cbn. unfold step_main. rewrite Em. discriminate.
+  - (* MJoin: worker i can move, or has returned *)
+    pose proof (B_range s B) as Hr. rewrite Em in Hr.
+    destruct (nth_error (workers s) i) as [pc|] eqn:Ew.
+    2:{ apply nth_error_None in Ew. lia. }
+    assert (Hw : exists t, t <= nprods s + nq s /\ (step_worker i s <> None -> step t s <> None)).
+    { exists (worker_tid s i). split; [unfold worker_tid; lia|]. now rewrite step_worker_tid. }
+    destruct Hw as (tw & Htw & Hstep).
+    destruct pc as [|i0|i0 q0 t0| | |[]|t0|t0|].
+    + exfalso. destruct (B_started s B i Ew) as (i1 & E & _). congruence.
+    + exists tw. split; [exact Htw|]. apply Hstep. unfold step_worker. cbv zeta. rewrite Ew.
+      destruct (q_free s ((i + i0) mod nq s)); [destruct (qitems (getq s ((i + i0) mod nq s)))|]; discriminate.
+    + exists tw. split; [exact Htw|]. apply Hstep. unfold step_worker. rewrite Ew. discriminate.
+    + exists tw. split; [exact Htw|]. apply Hstep. unfold step_worker. rewrite Ew, (Hqf i Hr). discriminate.
+    + exists tw. split; [exact Htw|]. apply Hstep. unfold step_worker. rewrite Ew. discriminate.
+    + exists tw. split; [exact Htw|]. apply Hstep. unfold step_worker. rewrite Ew, (Hqf i Hr). discriminate.
+    + exfalso. destruct (O_blocked s O i Ew) as [_ [Hs|[d0 Hs]]]; [|congruence].
+      assert (Hst : qstop (getq s i) = true).
+      { apply (B_stop s B). unfold stopped_upto. rewrite Em. exact Hr. }
+      congruence.
+    + exists tw. split; [exact Htw|]. apply Hstep. unfold step_worker. rewrite Ew. discriminate.
+    + exists tw. split; [exact Htw|]. apply Hstep. unfold step_worker. rewrite Ew. discriminate.
+    + exists 0. split; [lia|]. unfold step; cbn. unfold step_main. rewrite Em, Ew. discriminate.
+  - (* MDone: then the state is final *)
+    exfalso. unfold final in Hf. rewrite Em in Hf.
+    assert (Hd : all_prods_done s = true) by (apply (B_dtor s B); rewrite Em; reflexivity).
+    rewrite Hd in Hf. cbn in Hf.
+    assert (Hwd : forallb worker_done (workers s) = true).
+    { apply forallb_forall. intros pc Hin. apply In_nth_error in Hin as [w Hw].
+      pose proof (nth_error_lt _ _ _ Hw) as Hlt. rewrite Hlen in Hlt.
+      rewrite (O_mdone s O Em w Hlt) in Hw. injection Hw as <-. reflexivity. }
+    congruence.
+Qed.
